@@ -1239,7 +1239,7 @@ def generate(excluded):
         if path not in cache:
             try:
                 cache[path] = rsparse.find_functions(open(os.path.join(REPO, path), encoding="utf-8").read())
-            except (OSError, UnsupportedSyntax) as ex:
+            except Exception as ex:
                 cache[path] = {}
         fs = cache[path]
         if rs not in fs:
@@ -1266,6 +1266,9 @@ def generate(excluded):
             status[rs] = dict(translated=True, props=props, model=model, lean="JL.Gen." + ln, file=path)
         except UnsupportedSyntax as ex:
             status[rs] = dict(translated=False, reason="outside the translated subset: " + str(ex), props=props, model=model, file=path)
+            fn_names[rs] = model
+        except Exception as ex:          # a shape the translator's own code did not foresee: the function is simply not translated
+            status[rs] = dict(translated=False, reason="outside the translated subset (translator: %s: %s)" % (type(ex).__name__, str(ex)[:120]), props=props, model=model, file=path)
             fn_names[rs] = model
     # mutually recursive groups become one piece: a `mutual` block over a shared fuel argument
     for grp in GROUPS:
@@ -1317,8 +1320,8 @@ def generate(excluded):
         out.append(ttxt)
         if ttxt: out.append(CALL_GLUE_TEXT)
         spans.append((start, sum(x.count("\n") + 1 for x in out), "__tables__"))
-    except (OSError, UnsupportedSyntax) as ex:
-        status["table:*"] = dict(translated=False, reason=str(ex), props=["C02", "C03"], model="Tables")
+    except Exception as ex:
+        status["table:*"] = dict(translated=False, reason=str(ex)[:200], props=["C02", "C03"], model="Tables")
     emit([p_ for p_ in ordered if p_[0] in after])
     out += ["end Gen", "end JL", ""]
     spans = [(a, b, aux_owner.get(rs_, rs_)) for a, b, rs_ in spans]
@@ -1419,8 +1422,8 @@ def generate_tables(fn_names, status):
                     skipped.append(key[1:-1] + " (its function is not translated)")
                 else:
                     entries.append("(%s, %s)" % (str_lit(key), txt))
-            except UnsupportedSyntax as ex:
-                skipped.append("%s (%s)" % (key[1:-1], ex))
+            except Exception as ex:
+                skipped.append("%s (%s)" % (key[1:-1], str(ex)[:120]))
         lines.append("/-- `%s` of src/op/mod.rs: operator name ↦ the function the table binds to it -/" % table)
         lines.append("def %s : List (Str × %s) :=\n [%s]\n" % (lean, ty, ",\n  ".join(entries)))
         if table == "OPERATOR_MAP":
@@ -1492,4 +1495,16 @@ def main():
 
 
 if __name__ == "__main__":
-    sys.exit(main())
+    try:
+        sys.exit(main())
+    except Exception as ex:
+        # the translator must never be the reason a check fails: with no translation at all every function is tied by the streams only
+        import traceback
+        print("rs2lean: internal error, nothing translated: " + traceback.format_exc()[-600:])
+        try:
+            st = {rs: dict(translated=False, reason="translator error", props=props, model=model, file=path) for path, rs, ln, props, model in FUNCS}
+            with open(STATUS, "w") as fh: json.dump(st, fh, indent=1, sort_keys=True)
+            with open(OUT, "w") as fh: fh.write("/- GENERATED: empty (translator error) -/\nimport JL.Rs\nnamespace JL\nnamespace Gen\nend Gen\nend JL\n")
+        except Exception:
+            pass
+        sys.exit(0)
